@@ -127,6 +127,8 @@ type Client struct {
 // NegotiatedVersion returns the protocol version negotiated with the server.
 // This is only valid after Start() is called.
 func (c *Client) NegotiatedVersion() int {
+	c.l.Lock()
+	defer c.l.Unlock()
 	return c.negotiatedVersion
 }
 
